@@ -117,6 +117,75 @@ Proof.
   - destruct (readlines content); [congruence|discriminate].
 Qed.
 
+(* ---------------------------------------------------------------------------------------------- the repaired variant *)
+(* with subtitle_text initialised the payload trigger disappears: only the empty file and the float overflow remain *)
+Definition vtt_inv_fixed (v : vtt_vars) : Prop :=
+  v_text_bound v = true /\
+  match v_state v with
+  | V_START => False
+  | V_TEXT => v_p v = Some false
+  | V_TEXT_MORE => v_p v = Some true
+  | _ => True
+  end.
+
+Lemma vtt_flush_bound v v' : vtt_flush v = inl v' -> v_text_bound v' = true.
+Proof.
+  unfold vtt_flush. destruct (v_text_bound v); simpl; [|discriminate]. destruct (v_p v); [|discriminate].
+  destruct (next_sub (v_oracle v)) as [r o']. destruct (outcome_of_sub r); [discriminate|]. intro E; inversion E; reflexivity.
+Qed.
+
+Lemma vtt_loop_internal_fixed items : forall v k,
+  vtt_inv_fixed v -> vtt_any_overflow items = false ->
+  vtt_loop v items = inr (Internal k) -> In (SubInternal k) (v_oracle v).
+Proof.
+  induction items as [|l rest IH]; intros v k [Hb I] O H.
+  - simpl in H. unfold vtt_step in H.
+    destruct (v_state v) eqn:St; try contradiction; try discriminate; apply vtt_flush_internal; eauto.
+  - simpl in H. unfold vtt_any_overflow in O. simpl in O. apply orb_false_iff in O as [O1 O2].
+    destruct (vtt_step v (Some l)) as [v'|o] eqn:E.
+    + assert (G : vtt_inv_fixed v' /\ (forall x, In x (v_oracle v') -> In x (v_oracle v))).
+      { unfold vtt_step in E. unfold vtt_inv_fixed.
+        destruct (v_state v) eqn:St; try contradiction.
+        - unfold vtt_looking in E.
+          destruct (vv_blank l); [inversion E; subst; rewrite St; auto|].
+          destruct (vv_note l); [inversion E; subst; simpl; auto|].
+          destruct (vv_style l); [inversion E; subst; simpl; auto|].
+          destruct (vv_arrow l); simpl in E; [|inversion E; subst; rewrite St; auto].
+          destruct (vv_cue l); simpl in E; [|inversion E; subst; rewrite St; auto].
+          rewrite O1 in E. inversion E; subst; simpl; auto.
+        - destruct (vv_blank l); inversion E; subst; simpl; rewrite ?St; auto.
+        - destruct (vv_blank l); inversion E; subst; simpl; rewrite ?St; auto.
+        - destruct (vv_blank l).
+          + pose proof (vtt_flush_bound _ _ E) as B. apply vtt_flush_ok in E as [S1 S2]. rewrite S1. auto.
+          + unfold vtt_text_line in E. rewrite I in E. inversion E; subst; simpl; auto.
+        - destruct (vv_blank l).
+          + pose proof (vtt_flush_bound _ _ E) as B. apply vtt_flush_ok in E as [S1 S2]. rewrite S1. auto.
+          + unfold vtt_text_line in E. rewrite Hb in E. simpl in E. inversion E; subst; simpl; auto. }
+      destruct G as [I' Inc]. apply Inc. eapply IH; eauto.
+    + inversion H; subst. unfold vtt_step in E.
+      destruct (v_state v) eqn:St; try contradiction.
+      * unfold vtt_looking in E.
+        destruct (vv_blank l); [discriminate|]. destruct (vv_note l); [discriminate|]. destruct (vv_style l); [discriminate|].
+        destruct (vv_arrow l); simpl in E; [|discriminate]. destruct (vv_cue l); simpl in E; [|discriminate].
+        rewrite O1 in E. discriminate.
+      * destruct (vv_blank l); discriminate.
+      * destruct (vv_blank l); discriminate.
+      * destruct (vv_blank l); [apply vtt_flush_internal; eauto|]. unfold vtt_text_line in E. rewrite I in E. discriminate.
+      * destruct (vv_blank l); [apply vtt_flush_internal; eauto|]. unfold vtt_text_line in E. rewrite Hb in E. discriminate.
+Qed.
+
+Lemma vtt_views_fixed_partial oracle items k :
+  items <> [] -> vtt_any_overflow items = false ->
+  vtt_views_fixed oracle items = Internal k -> In (SubInternal k) oracle.
+Proof.
+  intros NE O. unfold vtt_views_fixed. destruct items as [|l rest]; [congruence|].
+  change (vtt_loop (vtt_init_fixed oracle) (l :: rest)) with (vtt_loop (vset V_LOOKING (vtt_init_fixed oracle)) rest).
+  unfold vtt_any_overflow in O. simpl in O. apply orb_false_iff in O as [_ O2].
+  destruct (vtt_loop (vset V_LOOKING (vtt_init_fixed oracle)) rest) eqn:E; [discriminate|].
+  intro; subst. change oracle with (v_oracle (vset V_LOOKING (vtt_init_fixed oracle))).
+  eapply vtt_loop_internal_fixed; eauto. split; simpl; auto.
+Qed.
+
 (* ---------------------------------------------------------------------------------------------- the cursor, without ruby *)
 Fixpoint spans (n : nat) (tail : list vkind) : list vkind := match n with O => tail | S k => KSpan :: spans k tail end.
 
